@@ -4,32 +4,30 @@ import Proofs.C15Paging
 namespace Paging.First
 open Paging Paging.Hist
 
-theorem queryScan_spec (pp : Nat → Nat) : ∀ (script : List Reply) (c : Bool) (q : Qry), FirstPageDecides script →
-    (match (connExec pp script c q).iter.err with
-     | some e => ((none : Option Int), some (Err.fail e))
-     | none => match (connExec pp script c q).iter.rows with
-       | [] => (none, some Err.notFound)
-       | r :: _ => (some r, none)) = Spec.first script := by
+theorem queryScan_spec (pp : Nat → Nat) : ∀ (script : List Reply) (c : Bool) (q : Qry), q.disableAutoPage = false →
+    ((queryScan pp script c q).row, (queryScan pp script c q).err) = Spec.first script := by
   intro script
   induction script with
-  | nil => intro c q _; simp [connExec, errIter, Spec.first, Paging.Spec.rows, Paging.Spec.err]
+  | nil => intro c q _; simp [queryScan, Spec.first, Paging.Spec.rows, Paging.Spec.err]
   | cons r rest ih =>
-    intro c q h
+    intro c q hq
     cases r with
     | unprepared =>
-      have := ih false q h
-      simpa [connExec, Spec.first, Paging.Spec.rows, Paging.Spec.err] using this
-    | fail f => simp [connExec, errIter, Spec.first, Paging.Spec.rows, Paging.Spec.err]
+      have := ih false q hq
+      simpa [queryScan, Spec.first, Paging.Spec.rows, Paging.Spec.err] using this
+    | fail f => simp [queryScan, Spec.first, Paging.Spec.rows, Paging.Spec.err]
     | page rows st =>
       cases st with
       | none =>
         cases rows with
-        | nil => simp [connExec, pageIter, Spec.first, Paging.Spec.rows, Paging.Spec.err]
-        | cons a as => simp [connExec, pageIter, Spec.first, Paging.Spec.rows]
+        | nil => simp [queryScan, pageIter, Spec.first, Paging.Spec.rows, Paging.Spec.err]
+        | cons a as => simp [queryScan, Spec.first, Paging.Spec.rows]
       | some s =>
         cases rows with
-        | nil => exact absurd h (by simp [FirstPageDecides])
-        | cons a as => simp [connExec, pageIter, Spec.first, Paging.Spec.rows]
+        | nil =>
+          have := ih true { q with pageState := s } hq
+          simpa [queryScan, pageIter, hq, Spec.first, Paging.Spec.rows, Paging.Spec.err] using this
+        | cons a as => simp [queryScan, Spec.first, Paging.Spec.rows]
 
 theorem queryExec_spec (pp : Nat → Nat) : ∀ (script : List Reply) (c : Bool) (q : Qry),
     (connExec pp script c q).iter.err = Spec.execErr script := by
